@@ -65,6 +65,8 @@ mod processor_registry;
 mod processor_state;
 mod scheduler;
 mod task;
+#[cfg(folo_verif)]
+pub mod verif;
 mod worker;
 
 pub(crate) use constants::NEVER_POISONED;
